@@ -52,6 +52,8 @@ pub(crate) struct File {
 #[derive(Debug)]
 struct FileInner {
     std_file: StdFile,
+    #[cfg(pearl_verif)]
+    path: PathBuf,
     size: AtomicU64,
     synced_size: AtomicU64
 }
@@ -83,15 +85,31 @@ impl File {
         if Self::can_run_inplace(len) {
             Self::inplace_sync_call(move || {
                 let offset = file_inner.size.fetch_add(len, Ordering::SeqCst);
+                #[cfg(pearl_verif)]
+                crate::verif::io(crate::verif::IoOp::Reserve, &file_inner.path, None, offset, len)?;
                 let (res, data) = c.create(offset);
+                #[cfg(pearl_verif)]
+                if let Some(r) = Self::verif_write_data(&file_inner, offset, &res) {
+                    return r.map(|_| data);
+                }
                 Self::write_data(&file_inner.std_file, offset, res)?;
+                #[cfg(pearl_verif)]
+                crate::verif::io(crate::verif::IoOp::WriteDone, &file_inner.path, None, offset, len)?;
                 Ok(data)
             })
         } else {
             Self::background_sync_call(move || {
                 let offset = file_inner.size.fetch_add(len, Ordering::SeqCst);
+                #[cfg(pearl_verif)]
+                crate::verif::io(crate::verif::IoOp::Reserve, &file_inner.path, None, offset, len)?;
                 let (res, data) = c.create(offset);
+                #[cfg(pearl_verif)]
+                if let Some(r) = Self::verif_write_data(&file_inner, offset, &res) {
+                    return r.map(|_| data);
+                }
                 Self::write_data(&file_inner.std_file, offset, res)?;
+                #[cfg(pearl_verif)]
+                crate::verif::io(crate::verif::IoOp::WriteDone, &file_inner.path, None, offset, len)?;
                 Ok(data)
             })
             .await
@@ -113,11 +131,21 @@ impl File {
         if Self::can_run_inplace(buf.len() as u64) {
             Self::inplace_sync_call(move || {
                 let offset = file_inner.size.fetch_add(buf.len() as u64, Ordering::SeqCst);
+                #[cfg(pearl_verif)]
+                {
+                    return Self::verif_write_all_at(&file_inner, crate::verif::IoOp::Write, offset, &buf);
+                }
+                #[allow(unreachable_code)]
                 file_inner.std_file.write_all_at(&buf, offset)
             })
         } else {
             Self::background_sync_call(move || {
                 let offset = file_inner.size.fetch_add(buf.len() as u64, Ordering::SeqCst);
+                #[cfg(pearl_verif)]
+                {
+                    return Self::verif_write_all_at(&file_inner, crate::verif::IoOp::Write, offset, &buf);
+                }
+                #[allow(unreachable_code)]
                 file_inner.std_file.write_all_at(&buf, offset)
             })
             .await
@@ -128,8 +156,18 @@ impl File {
         debug_assert!(offset + buf.len() as u64 <= self.size());
         let file_inner = self.inner.clone();
         if Self::can_run_inplace(buf.len() as u64) {
+            #[cfg(pearl_verif)]
+            {
+                return Self::inplace_sync_call(move || Self::verif_write_all_at(&file_inner, crate::verif::IoOp::WriteAt, offset, &buf));
+            }
+            #[allow(unreachable_code)]
             Self::inplace_sync_call(move || file_inner.std_file.write_all_at(&buf, offset))
         } else {
+            #[cfg(pearl_verif)]
+            {
+                return Self::background_sync_call(move || Self::verif_write_all_at(&file_inner, crate::verif::IoOp::WriteAt, offset, &buf)).await;
+            }
+            #[allow(unreachable_code)]
             Self::background_sync_call(move || file_inner.std_file.write_all_at(&buf, offset)).await
         }
     }
@@ -164,10 +202,16 @@ impl File {
     pub(crate) async fn fsyncdata(&self) -> IOResult<()> {
         let file_inner = self.inner.clone();
         let size = self.size();
+        #[cfg(pearl_verif)]
+        crate::verif::io(crate::verif::IoOp::SyncBegin, &file_inner.path, None, size, 0)?;
         Self::background_sync_call(
             move || {
+               #[cfg(pearl_verif)]
+               crate::verif::io(crate::verif::IoOp::Sync, &file_inner.path, None, size, 0)?;
                file_inner.std_file.sync_all()?;
                file_inner.synced_size.fetch_max(size, Ordering::SeqCst);
+               #[cfg(pearl_verif)]
+               crate::verif::io(crate::verif::IoOp::SyncEnd, &file_inner.path, None, size, 1)?;
                Ok(())
             }
         ).await
@@ -218,6 +262,13 @@ impl File {
         F: FnOnce() -> R + Send + 'static,
         R: Send + 'static,
     {
+        #[cfg(pearl_verif)]
+        let verif_gauge = crate::verif::Gauge::enter(&crate::verif::PROBE.blocking);
+        #[cfg(pearl_verif)]
+        let f = move || {
+            let _verif_gauge = verif_gauge;
+            f()
+        };
         tokio::task::spawn_blocking(move || f())
             .await
             .expect("spawned blocking task failed")
@@ -241,6 +292,10 @@ impl File {
         path: impl AsRef<Path>,
         setup: impl Fn(&mut OpenOptions) -> &mut OpenOptions,
     ) -> IOResult<Self> {
+        #[cfg(pearl_verif)]
+        crate::verif::io(
+            if path.as_ref().exists() { crate::verif::IoOp::Open } else { crate::verif::IoOp::Create },
+            path.as_ref(), None, 0, 0)?;
         let file = setup(&mut OpenOptions::new()).open(path.as_ref()).await?;
 
         if Self::advisory_write_lock_file(file.as_raw_fd()) == LockAcquisitionResult::AlreadyLocked
@@ -249,7 +304,32 @@ impl File {
             panic!("File {:?} is locked", path.as_ref());
         }
 
+        #[cfg(pearl_verif)]
+        {
+            let mut f = Self::from_tokio_file(file).await?;
+            Arc::get_mut(&mut f.inner).expect("fresh file").path = path.as_ref().to_path_buf();
+            return Ok(f);
+        }
+        #[allow(unreachable_code)]
         Self::from_tokio_file(file).await
+    }
+
+    #[cfg(pearl_verif)]
+    fn verif_write_data(file_inner: &FileInner, offset: u64, data: &WritableData) -> Option<IOResult<()>> {
+        match data {
+            WritableData::Single(b) => crate::verif::write(crate::verif::IoOp::Write, &file_inner.path, &file_inner.std_file, offset, &[&b[..]]),
+            WritableData::Double(b1, b2) => crate::verif::write(crate::verif::IoOp::Write, &file_inner.path, &file_inner.std_file, offset, &[&b1[..], &b2[..]]),
+        }
+    }
+
+    #[cfg(pearl_verif)]
+    fn verif_write_all_at(file_inner: &FileInner, op: crate::verif::IoOp, offset: u64, buf: &[u8]) -> IOResult<()> {
+        if let Some(r) = crate::verif::write(op, &file_inner.path, &file_inner.std_file, offset, &[buf]) {
+            return r;
+        }
+        file_inner.std_file.write_all_at(buf, offset)?;
+        let done = if op == crate::verif::IoOp::Write { crate::verif::IoOp::WriteDone } else { crate::verif::IoOp::WriteAtDone };
+        crate::verif::io(done, &file_inner.path, None, offset, buf.len() as u64)
     }
 
     async fn from_tokio_file(file: TokioFile) -> IOResult<Self> {
@@ -261,6 +341,8 @@ impl File {
         let file = Self {
             inner: Arc::new(FileInner { 
                 std_file, 
+                #[cfg(pearl_verif)]
+                path: PathBuf::new(),
                 size,
                 synced_size
             })
